@@ -2,15 +2,21 @@
 //
 // The code under test is the arcaflow-codegen *binary* (built by the orchestrator from
 // $VERIF_REPO/cmd/arcaflow-codegen, given with -gen): every observation is one subprocess run in
-// a private temporary directory.
+// a temporary directory - a fresh one, or (the directory of Codegen.tla's Observe machine) one in
+// which an earlier run of the same or of another input has left its typedef_output.go.
 //
 // Cases:
 //
 //	{"doc":[..],"args":{form,ign},"shape":..,"sat":..,"exp":{"structs":[..]},"runs":N}   vector from CodegenMC
 //	        (op "vec"): run N times, compare the parsed output with exp, compare bytes across runs
+//	{... as above ...,"prev":{"doc":[..],"args":{..}}}   vector of a USED directory (op "seq"; prev.args.form "fresh" = the
+//	        plain vector above): in a new directory the generator is first run on prev, then - the output file left
+//	        in place - on the input; that run must give exp, valid Go and the bytes of a run of the input in a fresh directory
+//	{"op":"seq","prev":{..},"doc":[..],"args":{..},"style":..}   the same for an explicit pair without exp (structure by CodegenTrace)
 //	{"op":"doc","doc":[..],"args":{..},"style":..,"runs":N}    one explicit document: direct checks +
 //	        trace lines for CodegenTrace.tla (the structure verdict is the specification's)
-//	{"op":"rand","seed":S,"count":K,"maxobjs":..,"maxprops":..,"runs":N}  seeded random documents, as "doc"
+//	{"op":"rand","seed":S,"count":K,"maxobjs":..,"maxprops":..,"runs":N}  seeded random documents, as "doc"; then
+//	        their argument forms (and the document cut by an object) one after the other in ONE directory
 //	{"op":"bind","repo":path}     the type IDs declared in <repo>/schema (binding check of Codegen!TypeIDs)
 //
 // Byte-level facts are decided here with the Go toolchain (exit status, panic, go/parser,
@@ -94,10 +100,17 @@ type expT struct {
 	Structs []expStruct `json:"structs"`
 }
 
+// prevT: the input whose output the directory holds before the run (args.form "fresh": none)
+type prevT struct {
+	Doc  []objT `json:"doc"`
+	Args argsT  `json:"args"`
+}
+
 type caseT struct {
 	Op       string `json:"op"`
 	Doc      []objT `json:"doc"`
 	Args     argsT  `json:"args"`
+	Prev     *prevT `json:"prev"`
 	Shape    string `json:"shape"`
 	Sat      *bool  `json:"sat"`
 	Exp      *expT  `json:"exp"`
@@ -142,6 +155,9 @@ type resT struct {
 	RefRaw      int              `json:"ref_raw,omitempty"`
 	RefTitled   int              `json:"ref_titled,omitempty"`
 	MaxVariants int              `json:"max_variants,omitempty"` // most distinct outputs seen for one input
+	Over        map[string]int   `json:"over,omitempty"`         // runs over an existing output file, by length relation
+	OverSkipped int              `json:"over_skipped,omitempty"` // ... not judged: the earlier run left no file / the fresh run fails
+	Reruns      int              `json:"reruns,omitempty"`       // runs over the output of the same input
 }
 
 // ------------------------------------------------------------------ name attributes (independent of the generator)
@@ -313,8 +329,8 @@ func checkDoc(doc []objT, args argsT) string {
 			if !known[p.Tid] {
 				return fmt.Sprintf("type ID %q is not declared by the SDK", p.Tid)
 			}
-			if (p.Tid == "ref") != (p.Ref != "") {
-				return fmt.Sprintf("property %q: ref target %q does not fit type ID %q", p.Name, p.Ref, p.Tid)
+			if p.Tid == "ref" && p.Ref == "" { // any type may carry an id; a reference must
+				return fmt.Sprintf("property %q: a reference without a target", p.Name)
 			}
 			if p.Ref != "" && (!validIdent(p.Ref) || p.Reftitle != titleOf(p.Ref)) {
 				return fmt.Sprintf("reference %q: title %q, standard library gives %q", p.Ref, p.Reftitle, titleOf(p.Ref))
@@ -363,6 +379,8 @@ func typeExtras(tid string) [][2]string {
 		return [][2]string{{"min", "0"}, {"max", "10"}}
 	case "string":
 		return [][2]string{{"min", "1"}, {"pattern", "\"^[a-z]+$\""}}
+	case "object":
+		return [][2]string{{"properties", "{}"}}
 	case "one_of_string", "one_of_int":
 		return [][2]string{{"discriminator_field_name", "kind"}, {"types", "{}"}}
 	}
@@ -402,11 +420,12 @@ func renderBlock(doc []objT, noise bool) string {
 				b.WriteString("              required: " + strconv.FormatBool(i%4 == 0) + "\n")
 			}
 			b.WriteString("              type:\n")
-			if p.Tid == "ref" && i%2 == 1 {
+			// the id of the type mapping: the target of a reference, or the id an inline type carries itself
+			if p.Ref != "" && i%2 == 1 {
 				b.WriteString("                id: " + q(p.Ref) + "\n") // id before type_id, as in the repository's test
 			}
 			b.WriteString("                type_id: " + p.Tid + "\n")
-			if p.Tid == "ref" && i%2 == 0 {
+			if p.Ref != "" && i%2 == 0 {
 				b.WriteString("                id: " + q(p.Ref) + "\n")
 			}
 			if noise {
@@ -438,7 +457,7 @@ func renderFlow(doc []objT) string {
 				b.WriteString(", ")
 			}
 			b.WriteString(strconv.Quote(p.Name) + ": {\"type\": {\"type_id\": " + strconv.Quote(p.Tid))
-			if p.Tid == "ref" {
+			if p.Ref != "" {
 				b.WriteString(", \"id\": " + strconv.Quote(p.Ref))
 			}
 			b.WriteString("}}")
@@ -506,8 +525,8 @@ func checkRender(doc []objT, text string) error {
 			if tm["type_id"] != p.Tid {
 				return fmt.Errorf("property %q: type_id %v rendered, %q in the document", p.Name, tm["type_id"], p.Tid)
 			}
-			if p.Tid == "ref" && tm["id"] != p.Ref {
-				return fmt.Errorf("property %q: ref id %v rendered, %q in the document", p.Name, tm["id"], p.Ref)
+			if id, has := tm["id"]; (p.Ref != "" && id != p.Ref) || (p.Ref == "" && has) {
+				return fmt.Errorf("property %q: id %v rendered, %q in the document", p.Name, tm["id"], p.Ref)
 			}
 		}
 	}
@@ -558,10 +577,14 @@ func classifyPanic(stderr string) (cause, frame string) {
 	return
 }
 
-func runOnce(dir string, args argsT) runObs {
+// runOnce runs the generator in dir.  keep = false: typedef_output.go is removed first (as far as
+// the output file goes a fresh directory); keep = true: the run finds what the directory holds.
+func runOnce(dir string, args argsT, keep bool) runObs {
 	var o runObs
 	outPath := filepath.Join(dir, "typedef_output.go")
-	_ = os.Remove(outPath)
+	if !keep {
+		_ = os.Remove(outPath)
+	}
 	argv := []string{"schema_input.yaml"}
 	if args.Form == "with_ignore" {
 		argv = append(argv, args.Ign)
@@ -784,6 +807,9 @@ func fieldVerdict(o objT, e expStruct, s obsStruct) (string, string) {
 				for _, of := range s.Fields {
 					if of.Key == ef.Key && of.Tag == ef.Tag && !typeOK(ef, of) {
 						detail = pr.Tid
+						if pr.Tid != "ref" && pr.Ref != "" { // Codegen!WrongTypeCarriesId
+							detail += "+id"
+						}
 					}
 				}
 			}
@@ -1019,14 +1045,23 @@ func (r *resT) miss(class, detail string, c inputT, info map[string]any, drift b
 	sig := map[string]any{"op": "run", "class": class, "args": c.args.Form, "shape": c.shape, "detail": detail}
 	info["doc_objects"] = len(c.doc)
 	info["ignore"] = c.args.Ign
-	r.Mismatches = append(r.Mismatches, mismatch{Sig: sig, Detail: info, Drift: drift, Case: map[string]any{
+	cs := map[string]any{
 		"op": c.op, "doc": c.doc, "args": c.args, "style": c.style, "runs": c.runs,
 		"shape": c.shape, "sat": c.sat, "exp": c.exp,
-	}})
+	}
+	if c.prev != nil {
+		// a run over the output file an earlier run has left: another defect class than the same
+		// outcome in a fresh directory
+		sig["op"] = "run_over_existing"
+		cs["op"] = "seq"
+		cs["prev"] = c.prev
+		info["earlier_run"] = map[string]any{"doc_objects": len(c.prev.Doc), "args": c.prev.Args}
+	}
+	r.Mismatches = append(r.Mismatches, mismatch{Sig: sig, Detail: info, Drift: drift, Case: cs})
 }
 
 type inputT struct {
-	op    string // "vec" | "doc"
+	op    string // "vec" | "doc" | "seq"
 	doc   []objT
 	args  argsT
 	style string
@@ -1035,6 +1070,7 @@ type inputT struct {
 	sat   bool
 	exp   *expT
 	inp   string
+	prev  *prevT // seq: the input run before in the same directory
 }
 
 func satisfiable(doc []objT, args argsT) bool {
@@ -1051,7 +1087,21 @@ func satisfiable(doc []objT, args argsT) bool {
 	return true
 }
 
-func runInput(c inputT, r *resT) {
+func (o *runObs) clean() bool {
+	return !o.Hang && !o.Panic && o.Exit == 0 && o.HasOut && o.ParseErr == ""
+}
+
+func traceLine(c inputT, run int, rel string, o *runObs) map[string]any {
+	return map[string]any{
+		"ev": "run", "inp": c.inp, "run": run, "doc": c.doc, "args": c.args, "style": c.style,
+		"runs": c.runs, "structs": o.Structs, "hash": o.Hash, "rel": rel,
+	}
+}
+
+// runInput runs one input c.runs times in a private directory and returns the first clean
+// observation (nil if there is none).  Before the even runs the output file is removed (a fresh
+// directory); the odd runs find the output of the run before (the same input run again in place).
+func runInput(c inputT, r *resT) *runObs {
 	r.Inputs++
 	text := render(c.doc, c.style)
 	if err := checkRender(c.doc, text); err != nil {
@@ -1080,13 +1130,30 @@ func runInput(c inputT, r *resT) {
 	}
 	failures := 0
 	outcome := "ok"
+	prevClean := false
 	for k := 0; k < c.runs; k++ {
 		if failures >= 3 { // a failure repeated three times will not get more interesting
 			break
 		}
-		o := runOnce(dir, c.args)
+		keep := k%2 == 1 && prevClean && first != nil
+		o := runOnce(dir, c.args, keep)
+		prevClean = o.clean()
 		assignKeys(o.Structs, c.doc)
 		r.Evals++
+		rel := "fresh"
+		if keep {
+			// the same input run again in place: what diverges from the fresh run here is a finding
+			// about the used directory (op run_over_existing), not about the input
+			r.Reruns++
+			rel = "over_own_output"
+			cc := c
+			cc.prev = &prevT{Doc: c.doc, Args: c.args}
+			if oc := judgeOver(cc, &o, first, rel, string(first.Bytes), r); oc != "ok" {
+				failures++
+				outcome = oc
+				continue
+			}
+		}
 		switch {
 		case o.Hang:
 			failures++
@@ -1148,10 +1215,7 @@ func runInput(c inputT, r *resT) {
 			// logged: the first two runs and every run with bytes not seen before for this input
 			// (a run repeating known bytes adds nothing the direct comparison above has not decided)
 			logged[o.Hash] = true
-			r.Trace = append(r.Trace, map[string]any{
-				"ev": "run", "inp": c.inp, "run": k, "doc": c.doc, "args": c.args, "style": c.style,
-				"runs": c.runs, "structs": o.Structs, "hash": o.Hash,
-			})
+			r.Trace = append(r.Trace, traceLine(c, k, rel, &o))
 		}
 		if len(o.Other) > 0 {
 			once("other_declarations", "", map[string]any{"run": k, "decls": o.Other}, true)
@@ -1166,6 +1230,171 @@ func runInput(c inputT, r *resT) {
 		r.MaxVariants = len(variants)
 	}
 	r.Keys = append(r.Keys, fmt.Sprintf("%s/%s/%s/%s/%s", docKey(c.doc), nameKind(c.doc), c.args.Form, ignKind(c.doc, c.args), outcome))
+	return first
+}
+
+// ------------------------------------------------------------------ a used directory
+// The generator writes typedef_output.go into the directory it runs in.  The statement makes the
+// output a function of the input (schema file, arguments): a run that finds the output of an
+// earlier run - of other arguments, of another document - must give what the same input gives
+// in a fresh directory.
+
+// relOf: the file the run finds against the output the input gives in a fresh directory
+// (a run over the output of the same input: "over_own_output")
+func relOf(found, fresh int) string {
+	switch {
+	case found > fresh:
+		return "over_longer_output"
+	case found < fresh:
+		return "over_shorter_output"
+	}
+	return "over_equal_output"
+}
+
+// judgeOver compares the observation o of c, made over an existing output file, with ref, the
+// clean observation of the same input in a fresh directory.  The first divergence is reported
+// (op run_over_existing, detail = rel); the returned outcome names it.
+func judgeOver(c inputT, o, ref *runObs, rel, found string, r *resT) string {
+	text := render(c.doc, c.style)
+	miss := func(class string, info map[string]any) string {
+		info["yaml"] = text
+		info["found_in_directory"] = found
+		info["fresh_directory"] = string(ref.Bytes)
+		r.miss(class, rel, c, info, false)
+		return class
+	}
+	switch {
+	case o.Hang:
+		return miss("hang", map[string]any{"stderr": o.Stderr})
+	case o.Panic:
+		return miss("panic", map[string]any{"exit": o.Exit, "cause": o.Cause, "frame": o.Frame, "stderr": o.Stderr})
+	case o.Exit != 0:
+		return miss("nonzero_exit", map[string]any{"exit": o.Exit, "stderr": o.Stderr})
+	case !o.HasOut:
+		return miss("no_output", map[string]any{"stderr": o.Stderr})
+	case o.ParseErr != "":
+		return miss("not_gofmt", map[string]any{"parse_error": o.ParseErr, "output": string(o.Bytes)})
+	}
+	if c.exp != nil {
+		cl, _ := structVerdict(c.doc, c.args, c.exp.Structs, o.Structs)
+		rcl, _ := structVerdict(c.doc, c.args, c.exp.Structs, ref.Structs)
+		if cl != "ok" && rcl == "ok" { // (a structure the fresh run gets wrong too is the plain vector's finding)
+			return miss(cl, map[string]any{"output": string(o.Bytes), "expected": c.exp.Structs})
+		}
+	}
+	if !bytes.Equal(o.Bytes, ref.Bytes) {
+		return miss("nondeterministic_bytes", map[string]any{"output": string(o.Bytes)})
+	}
+	return "ok"
+}
+
+func writeInput(dir string, c inputT) {
+	text := render(c.doc, c.style)
+	if err := checkRender(c.doc, text); err != nil {
+		panic("rendering: " + err.Error())
+	}
+	if err := os.WriteFile(filepath.Join(dir, "schema_input.yaml"), []byte(text), 0o644); err != nil {
+		panic("write input: " + err.Error())
+	}
+}
+
+func tempDir() string {
+	dir, err := os.MkdirTemp(*workDir, "cg-")
+	if err != nil {
+		panic("temp dir: " + err.Error())
+	}
+	return dir
+}
+
+func prevKind(c inputT) string {
+	if len(c.prev.Doc) != len(c.doc) {
+		return fmt.Sprintf("doc%+d", len(c.prev.Doc)-len(c.doc))
+	}
+	return "args:" + c.prev.Args.Form + ":" + ignKind(c.prev.Doc, c.prev.Args)
+}
+
+// runSeq: in a new directory the generator runs on c.prev, then - the output file left in place,
+// the schema file replaced - on c; the reference is a run of c in another new directory.
+func runSeq(c inputT, r *resT) {
+	if r.Over == nil {
+		r.Over = map[string]int{}
+	}
+	key := func(rel, outcome string) {
+		r.Keys = append(r.Keys, fmt.Sprintf("over/%s/%s/%s/%s/%s/%s/%s", docKey(c.doc), nameKind(c.doc), c.args.Form,
+			ignKind(c.doc, c.args), prevKind(c), rel, outcome))
+	}
+	used := tempDir()
+	defer os.RemoveAll(used)
+	p := inputT{op: "seq", doc: c.prev.Doc, args: c.prev.Args, style: c.style}
+	writeInput(used, p)
+	po := runOnce(used, p.args, false)
+	r.Evals++
+	if po.Hang || po.Panic || po.Exit != 0 || !po.HasOut {
+		// the earlier run's own failure is the finding of its own vector; there is no used directory to test
+		r.OverSkipped++
+		key("-", "earlier_run_failed")
+		return
+	}
+	writeInput(used, c)
+	o := runOnce(used, c.args, true)
+	r.Evals++
+	fresh := tempDir()
+	defer os.RemoveAll(fresh)
+	writeInput(fresh, c)
+	ref := runOnce(fresh, c.args, false)
+	r.Evals++
+	if !ref.clean() {
+		r.OverSkipped++ // the plain vector of this input reports it
+		key("-", "fresh_run_failed")
+		return
+	}
+	assignKeys(o.Structs, c.doc)
+	assignKeys(ref.Structs, c.doc)
+	rel := relOf(len(po.Bytes), len(ref.Bytes))
+	r.Over[rel]++
+	outcome := judgeOver(c, &o, &ref, rel, string(po.Bytes), r)
+	if c.exp == nil && o.clean() {
+		// explicit pair: the structure verdict is CodegenTrace's (both observations are of one input)
+		ln := traceLine(c, 1, rel, &o)
+		ln["prev"] = c.prev
+		r.Trace = append(r.Trace, traceLine(c, 0, "fresh", &ref), ln)
+	}
+	key(rel, outcome)
+}
+
+// runSession runs the steps one after the other in ONE directory (the schema file replaced, the
+// output file left in place) and compares each with fresh[step.inp], the clean observation of the
+// same input in a fresh directory.
+func runSession(steps []inputT, fresh map[string]*runObs, r *resT) {
+	if r.Over == nil {
+		r.Over = map[string]int{}
+	}
+	dir := tempDir()
+	defer os.RemoveAll(dir)
+	outPath := filepath.Join(dir, "typedef_output.go")
+	for k, c := range steps {
+		found, ferr := os.ReadFile(outPath)
+		writeInput(dir, c)
+		o := runOnce(dir, c.args, true)
+		r.Evals++
+		ref := fresh[c.inp]
+		if ferr != nil || ref == nil || k == 0 {
+			continue // a fresh directory, or nothing to compare with (the input's own runs report why)
+		}
+		assignKeys(o.Structs, c.doc)
+		rel := relOf(len(found), len(ref.Bytes))
+		r.Over[rel]++
+		c.prev = &prevT{Doc: steps[k-1].doc, Args: steps[k-1].args}
+		outcome := judgeOver(c, &o, ref, rel, string(found), r)
+		if o.clean() && o.Hash != ref.Hash {
+			// bytes not seen before for this input: logged for CodegenTrace (which knows the fresh run)
+			ln := traceLine(c, 1000+k, rel, &o)
+			ln["prev"] = c.prev
+			r.Trace = append(r.Trace, ln)
+		}
+		r.Keys = append(r.Keys, fmt.Sprintf("over/%s/%s/%s/%s/%s/%s/%s", docKey(c.doc), nameKind(c.doc), c.args.Form,
+			ignKind(c.doc, c.args), prevKind(c), rel, outcome))
+	}
 }
 
 // nameKind: which kinds of name pairs the document holds (plain / differing in capitalisation
@@ -1228,6 +1457,8 @@ func docKey(doc []objT) string {
 						t = "ref>" + strconv.Itoa(i+1)
 					}
 				}
+			} else if p.Ref != "" {
+				t += "+id" // a type other than a reference that carries an id
 			}
 			ts = append(ts, t)
 		}
@@ -1380,7 +1611,9 @@ func genDoc(rng *rand.Rand, maxObjs, maxProps int) []objT {
 			if p.Tid == "map" && rng.Intn(3) != 0 { // keep the keyword type ID rare: it masks everything else
 				p.Tid = "list"
 			}
-			if p.Tid == "ref" {
+			// a reference names its target; every other type may carry an id of its own (the inline
+			// object that carries its ID - often; an id next to another type ID - now and then)
+			if p.Tid == "ref" || (p.Tid == "object" && rng.Intn(2) == 0) || rng.Intn(5) == 0 {
 				if rng.Intn(5) < 3 {
 					p.Ref = doc[rng.Intn(len(doc))].Name
 				} else {
@@ -1393,6 +1626,15 @@ func genDoc(rng *rand.Rand, maxObjs, maxProps int) []objT {
 	}
 	fillKeys(doc)
 	return doc
+}
+
+func cloneDoc(doc []objT) []objT {
+	out := make([]objT, len(doc))
+	for i, o := range doc {
+		out[i] = o
+		out[i].Props = append([]propT{}, o.Props...)
+	}
+	return out
 }
 
 func runRand(c caseT, r *resT) {
@@ -1409,13 +1651,37 @@ func runRand(c caseT, r *resT) {
 		if len(doc) > 0 {
 			forms = append(forms, argsT{Form: "with_ignore", Ign: doc[rng.Intn(len(doc))].Name})
 		}
-		for a, args := range forms {
+		fresh := map[string]*runObs{}
+		mk := func(doc []objT, args argsT, tag string, runs int) inputT {
 			if e := checkDoc(doc, args); e != "" {
 				panic("generated document violates the premise: " + e)
 			}
-			runInput(inputT{op: "doc", doc: doc, args: args, style: style, runs: c.Runs, shape: shapeOf(doc),
-				sat: satisfiable(doc, args), inp: fmt.Sprintf("%d/%d/%d", c.Seed, d, a)}, r)
+			return inputT{op: "doc", doc: doc, args: args, style: style, runs: runs, shape: shapeOf(doc),
+				sat: satisfiable(doc, args), inp: fmt.Sprintf("%d/%d/%s", c.Seed, d, tag)}
 		}
+		var ins []inputT
+		for a, args := range forms {
+			in := mk(doc, args, strconv.Itoa(a), c.Runs)
+			fresh[in.inp] = runInput(in, r)
+			ins = append(ins, in)
+		}
+		// the same inputs once more, one after the other in ONE directory: all objects -> one ignored
+		// (shorter) -> a name that is no object (longer again, and a longer header) -> no argument
+		// (shorter by the header); then another document: the last object cut off (shorter) and the
+		// whole document again (longer)
+		steps := []inputT{ins[0]}
+		if len(ins) > 2 {
+			steps = append(steps, ins[2])
+		}
+		steps = append(steps, ins[1], ins[0])
+		if len(doc) > 0 {
+			sub := cloneDoc(doc[:len(doc)-1])
+			fillKeys(sub)
+			in := mk(sub, forms[0], "cut", 1)
+			fresh[in.inp] = runInput(in, r)
+			steps = append(steps, in, ins[0])
+		}
+		runSession(steps, fresh, r)
 	}
 }
 
@@ -1491,6 +1757,9 @@ func handle(raw json.RawMessage) any {
 	if c.Op == "" && c.Exp != nil {
 		c.Op = "vec"
 	}
+	if c.Op == "seq" && c.Exp != nil && c.Sat != nil && c.Shape != "" {
+		c.Op = "vec" // a replayed vector of a used directory: checked and dispatched as the vector it was
+	}
 	if c.Style == "" {
 		c.Style = "block"
 	}
@@ -1520,8 +1789,31 @@ func handle(raw json.RawMessage) any {
 				}
 			}
 		}
-		runInput(inputT{op: "vec", doc: c.Doc, args: c.Args, style: c.Style, runs: c.Runs, shape: c.Shape,
-			sat: *c.Sat, exp: c.Exp}, r)
+		in := inputT{op: "vec", doc: c.Doc, args: c.Args, style: c.Style, runs: c.Runs, shape: c.Shape,
+			sat: *c.Sat, exp: c.Exp}
+		if c.Prev != nil && c.Prev.Args.Form != "fresh" {
+			// a used directory: it holds the output of prev (the attributes of prev's document are not
+			// used: only its YAML text is rendered)
+			if c.Prev.Args.Form != "no_ignore" && c.Prev.Args.Form != "with_ignore" {
+				r.BindError = "unknown argument form of the earlier run: " + c.Prev.Args.Form
+				return r
+			}
+			in.op, in.prev = "seq", c.Prev
+			runSeq(in, r)
+			return r
+		}
+		runInput(in, r)
+	case "seq":
+		if e := checkDoc(c.Doc, c.Args); e != "" {
+			r.BindError = e
+			return r
+		}
+		if c.Prev == nil {
+			return map[string]any{"harness_error": "seq without prev"}
+		}
+		in := inputT{op: "seq", doc: c.Doc, args: c.Args, style: c.Style, runs: 1, shape: shapeOf(c.Doc),
+			sat: satisfiable(c.Doc, c.Args), exp: c.Exp, inp: "seq", prev: c.Prev}
+		runSeq(in, r)
 	case "doc":
 		if e := checkDoc(c.Doc, c.Args); e != "" {
 			r.BindError = e
